@@ -46,6 +46,23 @@ fn hmesh(oriented: bool, v: &[P3], idx: &[[u32; 3]]) -> String {
     s
 }
 
+fn fsplit(r: SplitResult<TriMesh>) -> String {
+    match r { SplitResult::Negative => "neg".into(), SplitResult::Positive => "pos".into(),
+        SplitResult::Pair(l, r) => format!("pair {} {}", fmesh(&l), fmesh(&r)) }
+}
+fn fsection(r: IntersectResult<crate::p3::shape::Polyline>) -> String {
+    match r { IntersectResult::Negative => "neg".into(), IntersectResult::Positive => "pos".into(),
+        IntersectResult::Intersect(pl) => { let mut s = format!("poly {}", fpts(pl.vertices()));
+            s.push_str(&format!(" {}", pl.indices().len()));
+            for e in pl.indices() { s.push_str(&format!(" {} {}", e[0], e[1])); }
+            s } }
+}
+fn ksplit(r: SplitResult<TriMesh>) -> &'static str { match r { SplitResult::Negative => "neg", SplitResult::Positive => "pos", SplitResult::Pair(..) => "cut" } }
+fn ksection(r: IntersectResult<crate::p3::shape::Polyline>) -> &'static str { match r { IntersectResult::Negative => "neg", IntersectResult::Positive => "pos", IntersectResult::Intersect(..) => "cut" } }
+fn same(x: &str, y: &str) -> &'static str { if x == y { "same" } else { "diff" } }
+/// functions that call a plane-section routine: run in a killable child process (see `tm_section`)
+fn calls_section(func: &str) -> bool { matches!(func, "tm_section" | "tm_section_pos" | "tm_canon_section" | "tm_plane_pos" | "tm_plane_canon" | "tm_verdict" | "tm_verdict_pos" | "tm_verdict_canon") }
+
 pub fn exec(func: &str, a: &mut Args) -> String {
     if std::env::var("C17_DRY").is_ok() { return "dry".into(); } // debugging aid: list the generated cases without calling parry
     match func {
@@ -95,10 +112,10 @@ pub fn exec(func: &str, a: &mut Args) -> String {
                 SplitResult::Pair(l, r) => format!("pair {} {}", fmesh(&l), fmesh(&r)) } }
         // The pinned `intersection_with_local_plane` never terminates (and allocates without bound) on sections that are
         // open polylines, so the real call runs in a child process that is killed after a time budget -> `hang`.
-        "tm_section" if std::env::var("C17_CHILD").is_err() => {
+        f if calls_section(f) && std::env::var("C17_CHILD").is_err() => {
             use std::io::Write;
             use std::process::{Command, Stdio};
-            let line = format!("C17 tm_section {}\n", a.t[a.i..].join(" "));
+            let line = format!("C17 {} {}\n", func, a.t[a.i..].join(" "));
             let mut child = Command::new(std::env::current_exe().expect("exe")).arg("exec").env("C17_CHILD", "1")
                 .stdin(Stdio::piped()).stdout(Stdio::piped()).stderr(Stdio::null()).spawn().expect("spawn");
             child.stdin.take().unwrap().write_all(line.as_bytes()).expect("write");
@@ -125,6 +142,33 @@ pub fn exec(func: &str, a: &mut Args) -> String {
                     s.push_str(&format!(" {}", pl.indices().len()));
                     for e in pl.indices() { s.push_str(&format!(" {} {}", e[0], e[1])); }
                     s } } }
+        // ---- world-space and canonical-axis wrappers (results are expressed in the mesh's local frame, like the local functions')
+        "tm_section_pos" => { let m = mesh(a); let pos = d3::iso(a); let n = d3::v(a); let bias = a.f(); let eps = a.f();
+            fsection(m.intersection_with_plane(&pos, &Unit::new_unchecked(n), bias, eps)) }
+        "tm_canon_split" => { let m = mesh(a); let axis = a.u(); let bias = a.f(); let eps = a.f();
+            fsplit(m.canonical_split(axis, bias, eps)) }
+        "tm_canon_section" => { let m = mesh(a); let axis = a.u(); let bias = a.f(); let eps = a.f();
+            fsection(m.canonical_intersection_with_plane(axis, bias, eps)) }
+        // plane transfer of the wrappers, observed differentially: the arguments carry a local plane `(la, lb)`; the wrapper's result
+        // must be identical to the local function's on that plane (the Lean model checks that `(la, lb)` is bit-for-bit its own
+        // `planeToLocal(position, axis, bias)`, the oracle that it is the same plane in exact arithmetic)
+        "tm_plane_pos" => { let m = mesh(a); let pos = d3::iso(a); let n = Unit::new_unchecked(d3::v(a)); let bias = a.f(); let eps = a.f();
+            let la = Unit::new_unchecked(d3::v(a)); let lb = a.f();
+            format!("split:{} section:{}", same(&fsplit(m.split(&pos, &n, bias, eps)), &fsplit(m.local_split(&la, lb, eps))),
+                same(&fsection(m.intersection_with_plane(&pos, &n, bias, eps)), &fsection(m.intersection_with_local_plane(&la, lb, eps)))) }
+        "tm_plane_canon" => { let m = mesh(a); let axis = a.u(); let bias = a.f(); let eps = a.f(); let la = Unit::new_unchecked(d3::v(a));
+            format!("split:{} section:{}", same(&fsplit(m.canonical_split(axis, bias, eps)), &fsplit(m.local_split(&la, bias, eps))),
+                same(&fsection(m.canonical_intersection_with_plane(axis, bias, eps)), &fsection(m.intersection_with_local_plane(&la, bias, eps)))) }
+        // the Negative / Positive / cut decision of (split, section), bit-exact against the model's `meshVerdict*`
+        "tm_verdict" => { let m = mesh(a); let n = Unit::new_unchecked(d3::v(a)); let bias = a.f(); let eps = a.f();
+            format!("{} {}", ksplit(m.local_split(&n, bias, eps)), ksection(m.intersection_with_local_plane(&n, bias, eps))) }
+        "tm_verdict_pos" => { let m = mesh(a); let pos = d3::iso(a); let n = Unit::new_unchecked(d3::v(a)); let bias = a.f(); let eps = a.f();
+            format!("{} {}", ksplit(m.split(&pos, &n, bias, eps)), ksection(m.intersection_with_plane(&pos, &n, bias, eps))) }
+        "tm_verdict_canon" => { let m = mesh(a); let axis = a.u(); let bias = a.f(); let eps = a.f();
+            format!("{} {}", ksplit(m.canonical_split(axis, bias, eps)), ksection(m.canonical_intersection_with_plane(axis, bias, eps))) }
+        "seg_canon_split" => { let p = d3::p(a); let q = d3::p(a); let axis = a.u(); let bias = a.f(); let eps = a.f();
+            match Segment::new(p, q).canonical_split(axis, bias, eps) { SplitResult::Negative => "neg".to_string(), SplitResult::Positive => "pos".to_string(),
+                SplitResult::Pair(l, r) => format!("pair {} {} {} {}", d3::fp(&l.a), d3::fp(&l.b), d3::fp(&r.a), d3::fp(&r.b)) } }
         // intersect_meshes(pos1, mesh1, false, pos2, mesh2, false); result vertices are in world space
         "mesh_isect" => { let (m1, _) = solid(a); let p1 = d3::iso(a); let (m2, _) = solid(a); let p2 = d3::iso(a);
             match intersect_meshes(&p1, &m1, false, &p2, &m2, false) {
@@ -436,6 +480,40 @@ pub fn gen(r: &mut Rng, thorough: bool) -> Vec<(String, String)> {
             v.push(("seg_split".into(), format!("{} {} {} {} {}", d3::hp(&a), d3::hp(&b), d3::hv(&nrm), hx(bias), hx(eps))));
         }
 
+        // ---- Segment split, epsilon family: a segment of length L != 1 cut at arc-length distance d from one of its end points,
+        // d around epsilon, epsilon * L and epsilon / L (the tolerance is a length, on both ends, whatever the segment's length);
+        // normal along the segment or oblique
+        {
+            let a = d3::gen_p(r, lat, 10.0);
+            let u = unit3(r, lat);
+            let len = *r.pick(&[0.25, 0.5, 2.0, 4.0, 10.0, 3.0, 0.125, 1.0]);
+            let b = a + u * len;
+            let nrm = if r.bool() { u } else { unit3(r, lat) };
+            let eps = if lat { *r.pick(&[0.125, 0.25, 0.5, 0.0625]) } else { *r.pick(&[0.1, 1e-3, 0.3, 0.01]) };
+            let k = *r.pick(&[0.5, 0.875, 1.125, 2.0, 0.5 * len, 0.9375 * len, 1.0625 * len, 0.5 / len, 0.9375 / len, 1.0625 / len, 2.0 * len]);
+            let d = eps * k;
+            let t = if r.below(3) != 0 { len - d } else { d };
+            let bias = nrm.dot(&(a + u * t).coords);
+            let (a, b) = if r.below(4) == 0 { (b, a) } else { (a, b) };
+            v.push(("seg_split".into(), format!("{} {} {} {} {}", d3::hp(&a), d3::hp(&b), d3::hv(&nrm), hx(bias), hx(eps))));
+        }
+        // ---- Segment::canonical_split: every axis, planes through / near the end points
+        {
+            let a = d3::gen_p(r, lat, 10.0);
+            let axis = r.below(3) as usize;
+            let b = match r.below(6) { 0 => a, 1 => { let mut b = d3::gen_p(r, lat, 10.0); b[axis] = a[axis]; b } // parallel to the plane
+                2 => { let mut b = a; b[axis] += *r.pick(&[0.5, -2.0, 4.0, 10.0]); b }
+                _ => d3::gen_p(r, lat, 10.0) };
+            let eps = gen_eps(r, lat);
+            let (sa, sb) = (a[axis], b[axis]);
+            let bias = match r.below(9) {
+                0 => sa, 1 => sb, 2 => (sa + sb) * 0.5, 3 => sa + eps * *r.pick(&[1.0, 0.5, 2.0, -1.0]), 4 => sb - eps * *r.pick(&[1.0, 0.5, 2.0, -1.0]),
+                5 => sa + (sb - sa) * *r.pick(&[0.25, 0.75, -0.5, 1.5, 0.125]), 6 => sa.min(sb) - 1.0,
+                7 => a[(axis + 1) % 3], // the value a wrong axis would be compared with
+                _ => r.coord(lat, 12.0) };
+            v.push(("seg_canon_split".into(), format!("{} {} {} {} {}", d3::hp(&a), d3::hp(&b), axis, hx(bias), hx(eps))));
+        }
+
         // ---- Aabb difference: nested, containing, shifted, touching, disjoint, equal
         let x = gen_aabb(r, lat);
         let e = x.maxs - x.mins;
@@ -542,6 +620,7 @@ pub fn gen(r: &mut Rng, thorough: bool) -> Vec<(String, String)> {
                     _ => r.uniform(lo - 0.1, hi + 0.1) };
                 let args = format!("{} {} {} {}", hmesh(oriented, &mv, &mi), d3::hv(&nrm), hx(bias), hx(eps));
                 v.push(("tm_split".into(), args.clone()));
+                v.push(("tm_verdict".into(), args.clone()));
                 v.push(("tm_section".into(), args));
             }
             if it % 8 == 0 {
@@ -549,6 +628,62 @@ pub fn gen(r: &mut Rng, thorough: bool) -> Vec<(String, String)> {
                 let bias = r.lattice(8, 2);
                 v.push(("tm_split_pos".into(), format!("{} {} {} {} {}", hmesh(oriented, &mv, &mi), d3::hiso(&pos), d3::hv(&nrm), hx(bias), hx(1e-6))));
             }
+        }
+
+        // ---- TriMesh world-space wrappers (`split`, `intersection_with_plane`) and canonical-axis wrappers: the plane is chosen
+        // relative to the mesh *as placed in the world* (through a placed vertex, an edge mid-point, within eps, sweep), under poses
+        // with both a rotation and a translation (exact cube-group / Pythagorean / quarter-turn rotations and random ones), pure
+        // translations and pure rotations.
+        if it % 2 == 1 || thorough {
+            let mlat = it % 4 == 1;
+            let (oriented, mv, mi) = gen_mesh(r, mlat);
+            let hm = hmesh(oriented, &mv, &mi);
+            let pos = match r.below(10) {
+                0 => iso_of([0.0, 0.0, 0.0, 1.0], d3::gen_v(r, true, 4.0)),                    // pure translation
+                1 => iso_of(d3::gen_quat(r, true), V3::zeros()),                                // pure rotation
+                2 | 3 | 4 => d3::gen_iso(r, false, 5.0),                                        // random rotation and translation
+                5 => { // quarter / half turn about one axis + translation along another axis
+                    let s = std::f64::consts::FRAC_1_SQRT_2; let k = r.below(3) as usize;
+                    let mut q = [0.0; 4]; if r.bool() { q[3] = s; q[k] = if r.bool() { s } else { -s }; } else { q[k] = 1.0; }
+                    let mut t = V3::zeros(); t[(k + 1 + r.below(2) as usize) % 3] = *r.pick(&[1.0, -2.0, 0.5, 3.0]);
+                    iso_of(q, t) }
+                _ => { // exact rotation (never the identity) + lattice translation (never zero)
+                    let q = loop { let q = d3::gen_quat(r, true); if q[3].abs() != 1.0 { break q; } };
+                    let t = loop { let t = d3::gen_v(r, true, 4.0); if t.norm() > 0.0 { break t; } };
+                    iso_of(q, t) }
+            };
+            let nlat = mlat || r.bool(); let nrm = unit3(r, nlat);
+            let ds: Vec<f64> = mv.iter().map(|p| nrm.dot(&(pos * p).coords)).collect();
+            let (lo, hi) = ds.iter().fold((f64::MAX, -f64::MAX), |(a, b), d| (a.min(*d), b.max(*d)));
+            let k = r.below(mv.len() as u64) as usize;
+            let t = mi[r.below(mi.len() as u64) as usize];
+            let eps = *r.pick(&[0.0, 0.0, 1e-9, 1e-6, 1e-3, 0.125, 0.25]);
+            let bias = match r.below(6) {
+                0 => ds[k], 1 => (ds[t[0] as usize] + ds[t[1] as usize]) * 0.5, 2 => ds[k] + eps, 3 => ds[k] - eps * 0.5,
+                4 => lo + (hi - lo) * (r.range(-1, 9) as f64) / 8.0,
+                _ => r.uniform(lo - 0.1, hi + 0.1) };
+            let args = format!("{} {} {} {} {}", hm, d3::hiso(&pos), d3::hv(&nrm), hx(bias), hx(eps));
+            v.push(("tm_split_pos".into(), args.clone()));
+            v.push(("tm_section_pos".into(), args.clone()));
+            v.push(("tm_verdict_pos".into(), args.clone()));
+            let un = Unit::new_unchecked(nrm);
+            let la = pos.inverse_transform_unit_vector(&un);
+            let lb = bias + (-pos.translation.vector.dot(&un));
+            v.push(("tm_plane_pos".into(), format!("{} {} {}", args, d3::hv(&la), hx(lb))));
+            // canonical axes
+            let axis = r.below(3) as usize;
+            let cs: Vec<f64> = mv.iter().map(|p| p[axis]).collect();
+            let (lo, hi) = cs.iter().fold((f64::MAX, -f64::MAX), |(a, b), d| (a.min(*d), b.max(*d)));
+            let eps = *r.pick(&[0.0, 0.0, 1e-9, 1e-3, 0.125, 0.25]);
+            let bias = match r.below(6) {
+                0 => cs[k], 1 => (cs[t[0] as usize] + cs[t[1] as usize]) * 0.5, 2 => cs[k] + eps, 3 => cs[k] - eps * 0.5,
+                4 => lo + (hi - lo) * (r.range(-1, 9) as f64) / 8.0,
+                _ => mv[k][(axis + 1) % 3] }; // the value a wrong axis would be compared with
+            let args = format!("{} {} {} {}", hm, axis, hx(bias), hx(eps));
+            v.push(("tm_canon_split".into(), args.clone()));
+            v.push(("tm_canon_section".into(), args.clone()));
+            v.push(("tm_verdict_canon".into(), args.clone()));
+            v.push(("tm_plane_canon".into(), format!("{} {}", args, d3::hv(&V3::ith_axis(axis)))));
         }
     }
     // ---- intersect_meshes / TriMesh::intersection_with_{local_cuboid, cuboid, aabb} (oracle-only), after the other streams
